@@ -50,7 +50,7 @@ def cases(tier, seed):
             out.append({'fam': 'VCDN', 'kind': kind_, 'k': 'step_multiple', 'sim': s, 'K': 2, 'keys': ('name', 'wire')[len(out) % 2]})
     for s in ('sim', 'fast'):
         for w in (1, 3):
-            for exc in ('custom', 'pyrtl', 'internal', 'value', 'lookup', 'runtime'):
+            for exc in ('custom', 'pyrtl', 'internal', 'value', 'lookup', 'runtime', 'keyerror', 'keyerror_sub'):
                 if w == 3 and exc not in ('custom', 'pyrtl'):
                     continue
                 out.append({'k': 'rtl_assert', 'sim': s, 'w': w, 'K': 3, 'exc': exc})
@@ -492,24 +492,35 @@ def do_vcd(case, ob, site):
     tr = pyrtl.SimulationTrace(wires_to_track=tracked, block=block)
     for n in r.trace:
         tr.trace[n].extend(r.trace[n])
-    buf = io.StringIO()
-    with sym.stubs(simmod, bin=sym.sym_bin, str=_vcd_str):
+    def body():
+        buf = io.StringIO()
         tr.print_vcd(file=buf, include_clock=bool(case.get('seed', 0) % 2))
-    text = buf.getvalue()
-    widths, values = parse_vcd(text)
+        return buf.getvalue()
+    # (print_vcd may decide what to dump by comparing samples: those decisions are explored like any other branch)
+    with sym.stubs(simmod, bin=sym.sym_bin, str=_vcd_str):
+        paths = explore(body, assumptions=list(r.pc), max_paths=256)
+    ob.paths += len(paths)
     names = {tr.internal_names[w.name]: w for w in tracked}
-    ob.fact('vcd-declares-every-traced-wire-once', sorted(widths) == sorted(names), site + ':vars', detail=[sorted(widths), sorted(names)])
-    goals = []
-    for ident, w in names.items():
-        ob.fact('vcd-var-width:%s' % w.name, widths.get(ident) == w.bitwidth, site + ':width')
-        for t in range(K):
-            tok = values.get((t * 10, ident))
-            if tok is None:
-                ob.fact('vcd-has-value:%s@%d' % (w.name, t), False, site + ':missing-value')
-                continue
-            val = vcd_tok_value(tok)
-            goals.append(('vcd-value:%s@%d' % (w.name, t), to_bv(val, w.bitwidth + 1) == to_bv(r.trace[w.name][t], w.bitwidth + 1), site + ':value'))
-    ob.prove_all(goals, r.pc, v)
+    for p in paths:
+        if p.exc is not None:
+            ob.prove('print_vcd-no-exception(%s)' % type(p.exc).__name__, z3.Not(p.cond()), list(r.pc), v, site=site + ':exception')
+            continue
+        widths, values = parse_vcd(p.result)
+        ob.fact('vcd-declares-every-traced-wire-once', sorted(widths) == sorted(names), site + ':vars', detail=[sorted(widths), sorted(names)])
+        goals = []
+        for ident, w in names.items():
+            ob.fact('vcd-var-width:%s' % w.name, widths.get(ident) == w.bitwidth, site + ':width')
+            last = None
+            for t in range(K):
+                # a value change dump: a signal keeps its last dumped value until it is dumped again
+                tok = values.get((t * 10, ident), last)
+                last = tok
+                if tok is None:
+                    goals.append(('vcd-has-value:%s@%d' % (w.name, t), z3.BoolVal(False), site + ':missing-value'))
+                    continue
+                val = vcd_tok_value(tok)
+                goals.append(('vcd-value:%s@%d' % (w.name, t), to_bv(val, w.bitwidth + 1) == to_bv(r.trace[w.name][t], w.bitwidth + 1), site + ':value'))
+        ob.prove_all(goals, list(r.pc) + list(p.pc), v)
 
 
 def _vcd_str(x=''):
@@ -599,9 +610,17 @@ def do_rtl_assert(case, ob, site):
     class MyPyrtlErr(pyrtl.PyrtlError):
         pass
     # any Exception instance other than a KeyError is a legal second argument (documented)
+    class MyKeyErr(KeyError):
+        pass
     exp = {'custom': MyErr, 'pyrtl': pyrtl.PyrtlError, 'internal': pyrtl.PyrtlInternalError, 'value': ValueError,
-           'lookup': IndexError, 'runtime': MyPyrtlErr}[case.get('exc', 'custom')]('assertion failed')
-    pyrtl.rtl_assert(a != ((1 << w) - 1), exp)
+           'lookup': IndexError, 'runtime': MyPyrtlErr, 'keyerror': KeyError, 'keyerror_sub': MyKeyErr}[case.get('exc', 'custom')]('assertion failed')
+    try:
+        pyrtl.rtl_assert(a != ((1 << w) - 1), exp)
+    except pyrtl.PyrtlError:
+        # KeyError (and whatever is one) is documented as not usable: refusing it up front is fine; ACCEPTING it obliges the
+        # simulators to raise it like any other exception (checked below)
+        ob.fact('exception-class-refused-only-if-a-KeyError', isinstance(exp, KeyError), site + ':refused')
+        return
     block = pyrtl.working_block()
     v = Vars()
     with sym_env([block]):
